@@ -361,14 +361,46 @@ pub fn run_scenario(sc: &Scenario) -> Outcome {
     let mut fp = crate::rng::Fnv::default();
     {
         let view = View { w: &w, conn: 0, limit };
+        let mut wire_clean = [true, true];
         for side in [Side::Client, Side::Server] {
             let out = mon::wire::check_endpoint(&view, side);
+            wire_clean[side.wdir()] = out.violations.is_empty();
             violations.extend(out.violations);
             stats.merge(&out.stats);
             fp.add_u64(out.fp);
         }
         for side in [Side::Client, Side::Server] {
             mon::reset::check_endpoint(&view, side, quiescent, &mut violations, &mut stats);
+        }
+        // C09 ("legal traffic is never penalised") inside the simulator: both endpoints are h2 and every frame either
+        // of them emits has been judged legal by the wire oracles, so a connection error is unprovoked - unless the
+        // endpoint had refused or reset streams before (late frames for those may be answered with a connection
+        // error after its ignore period, RFC 9113 5.1), the application asked for it (abrupt_shutdown), a fault or
+        // scripted ending occurred, or the code is ENHANCE_YOUR_CALM (configured DoS defences).
+        // Judged on pristine scenarios only: cooperative, no concurrency limit configured on either side (no stream can
+        // be refused) and no RST_STREAM written by anybody in the whole run - what an endpoint decides about late
+        // frames of refused or reset streams depends on its (wall-clock) reset memory and is allowed to be an error.
+        let any_rst = (0..2).any(|d| view.frames(d).iter().any(|fr| matches!(fr.body, crate::wire::frame::Body::Rst { .. })));
+        let pristine = sc.coop && sc.client.max_concurrent_streams.is_none() && sc.server.max_concurrent_streams.is_none() && !any_rst;
+        if pristine && sc.faults.is_empty() && sc.ending.is_none() && !mon::apis(view.evs()).any(|(_, a)| matches!(a.op, Op::AbruptShutdown | Op::DropConn)) {
+            for side in [Side::Client, Side::Server] {
+                let d = side.wdir();
+                let peer_clean = wire_clean[1 - d];
+                let mut wrote_rst = false;
+                for fr in view.frames(d) {
+                    match &fr.body {
+                        crate::wire::frame::Body::Rst { .. } => wrote_rst = true,
+                        crate::wire::frame::Body::GoAway { last, code, .. } if *code != 0 => {
+                            stats.inc(&format!("{}.error_goaways_seen", side.name()));
+                            if !wrote_rst && peer_clean && *code != 11 {
+                                violations.push(Violation::new("C09", format!("unprovoked-connection-error:{}:code{}", side.name(), code), format!("{} wrote GOAWAY(last={}, code={}) although every frame its peer sent was judged legal, it had refused or reset nothing before, and no fault, ending or abrupt shutdown is part of the scenario", side.name(), last, code)));
+                            }
+                        }
+                        _ => {}
+                    }
+                }
+            }
+            stats.inc("c09.sim_runs_judged");
         }
         let api = mon::api::check_with_ending(&view, Some(&sc), quiescent, t_ending);
         violations.extend(api.violations);
